@@ -14,7 +14,7 @@ RULE = ("seeded component sets: 0-3 buffers (sequential / random-replacement, si
         "states in the same directory, runtime save (triggered by the save condition while the threads run) or final save. A real launch() is run with a recorder of mkdir / open-for-writing; then EVERY operation prefix of the recorded "
         "save, and for every file the truncations to 0, 1, half, all-but-one and all bytes (thorough: every byte count), is materialised next to the older states and a fresh launch(saved_state_path=it) is attempted with Thread.start "
         "counted and the older states hashed before / after; a sample of crash points (thorough: more) is produced by really killing a child process (os._exit) at that operation. Non-trivial = at least 12 operations and one "
-        "older state; distinct = canonical JSON.")
+        "older state; distinct = canonical JSON. Every case also saves twice under one directory name (a fixed name format): the second save must fail and leave the state that owns the name byte-identical (harness-side clause).")
 TRUSTED = [
     "Coq 8.16.1 kernel incl. vm_compute",
     "hand-written model coq/Model/Persist.v: a save as a list of mkdir / write operations, crash = operation prefix + truncated write",
@@ -60,7 +60,16 @@ def precheck(case, obs):
     for k in obs.get("kills", []):
         if k["child_exit"] != 9:        # the child must have died where it was told to
             return {"agree": False, "prop_ok": False, "hard": True}
+    if name_collision_damage(obs):
+        return {"agree": False, "prop_ok": False}
     return None
+
+
+def name_collision_damage(obs):
+    """a save whose directory name is already taken fails - and must leave the completed state that owns the name intact
+    (harness-side clause: the file-system model has no removals)"""
+    c = obs.get("collision")
+    return c is not None and not c.get("intact", True)
 
 
 def intern(obs):
@@ -108,6 +117,8 @@ def signature(case, obs):
     if "error" in obs or "crash" in obs:
         return "harness-error"
     n = len(obs.get("ops", []))
+    if name_collision_damage(obs):
+        return "older-state-damaged-by-a-save-whose-name-is-taken"
     for r in obs.get("results", []) + obs.get("kills", []):
         if not r["older_intact"]:
             return "older-state-damaged"
